@@ -34,6 +34,7 @@ type Profile struct {
 	MemOnly                                                 int // percent of histories on a memory-only store
 	MaxColls                                                int
 	BigVals                                                 bool
+	CopyOnto                                                bool     // some copies go onto a file that already holds a store (C09: appends there too)
 	BadNames                                                bool // one history in four gets collection names that are not valid UTF-8 (JSON cannot carry them: Flush must refuse; profiles without CopyTo only)
 	LongNames                                               bool // one history in five gets a collection name of 4100-4300 bytes: a root record longer than 4 KiB
 	NoFold                                                  bool // do not use case-folding collections
@@ -493,6 +494,9 @@ func (g *Gen) history() []string {
 				ns.names[n] = true
 			}
 			fe := []int{-1, 0, 1, 2, 3, 5, 100}[r.Intn(7)]
+			if g.p.CopyOnto && r.Intn(3) == 0 {
+				g.emit("appendcheck onto:%d:%d", s.sid, []int{0, 1, 2, 5}[r.Intn(4)]) // destination already holds a store
+			}
 			g.emit("copy %d %d %d %d", s.sid, ns.sid, ns.fid, fe)
 			g.emit("dump %d", ns.sid)
 			g.emit("image %d", ns.fid)
@@ -820,7 +824,10 @@ func (g *Gen) history() []string {
 					ns.names[x] = true
 				}
 				fe := []int{-1, 1, 7, 100}[r.Intn(4)]
-				g.emit("copy %d %d %d %d", s.sid, ns.sid, ns.fid, fe)
+				if g.p.CopyOnto && r.Intn(3) == 0 {
+				g.emit("appendcheck onto:%d:%d", s.sid, []int{0, 1, 2, 5}[r.Intn(4)]) // destination already holds a store
+			}
+			g.emit("copy %d %d %d %d", s.sid, ns.sid, ns.fid, fe)
 				g.emit("dump %d", ns.sid)
 				if fe > 0 {
 					g.emit("opendump %d", ns.fid)
